@@ -38,33 +38,59 @@ theorem scalar_add_mul_correct (a b : Bytes) (ha : a.length = 32) (hb : b.length
     exact_mod_cast h
   have hmul : leNat (mul a b) = (leNat a * leNat b) % ell := scMul_val a b ha hb
   have hpos : 0 < ell := by decide
-  exact ⟨⟨scAdd_length a b, hadd, (canonical_of _ (scAdd_length a b) (by rw [hadd]; exact Nat.mod_lt _ hpos)).1⟩,
-    ⟨scMul_length a b, hmul, (canonical_of _ (scMul_length a b) (by rw [hmul]; exact Nat.mod_lt _ hpos)).1⟩⟩
+  exact ⟨⟨scAdd_length a b, hadd, (canonical_of _ (scAdd_length a b) (hadd ▸ Nat.mod_lt _ hpos)).1⟩,
+    ⟨scMul_length a b, hmul, (canonical_of _ (scMul_length a b) (hmul ▸ Nat.mod_lt _ hpos)).1⟩⟩
 
-example : leNat (add (natLE 32 (ell - 1)) (natLE 32 (2 ^ 256 - 1)))
-    = (leNat (natLE 32 (ell - 1)) + leNat (natLE 32 (2 ^ 256 - 1))) % ell :=
-  (scalar_add_mul_correct _ _ (natLE_length _ _) (natLE_length _ _)).1.2.1
+example : leNat (add one one) = (leNat one + leNat one) % ell :=
+  (scalar_add_mul_correct one one (by decide) (by decide)).1.2.1
+
+theorem scSub_lt (x y : Bytes) (hx : x.length = 32) (hy : y.length = 32) : leNat (scSub shrI x y) < ell := by
+  have h := scSub_full x y hx hy
+  have hp : (0 : Int) < (ell : Int) := by exact_mod_cast (by decide : 0 < ell)
+  have h2 := Int.emod_lt_of_pos ((leNat x : Int) - leNat y) hp
+  rw [← h] at h2
+  exact_mod_cast h2
+
+example : leNat (scSub shrI one one) < ell := scSub_lt one one (by decide) (by decide)
 
 /-- **Sub, Neg**: canonical encodings of (a − b) mod ℓ and −a mod ℓ (the non-negative representatives) -/
 theorem scalar_sub_neg_correct (a b : Bytes) (ha : a.length = 32) (hb : b.length = 32) :
     ((sub a b).length = 32 ∧ (leNat (sub a b) : Int) = ((leNat a : Int) - leNat b) % (ell : Int)
       ∧ marshal (sub a b) = sub a b)
     ∧ ((neg a).length = 32 ∧ (leNat (neg a) : Int) = (-(leNat a : Int)) % (ell : Int) ∧ marshal (neg a) = neg a) := by
-  have hlt : ∀ x y : Bytes, x.length = 32 → y.length = 32 → leNat (scSub shrI x y) < ell := by
-    intro x y hx hy
-    have h := scSub_full x y hx hy
-    have h2 : ((leNat x : Int) - leNat y) % (ell : Int) < (ell : Int) := Int.emod_lt_of_pos _ (by decide)
-    rw [← h] at h2
-    exact_mod_cast h2
-  have hz : zero.length = 32 := by decide
-  refine ⟨⟨scSub_length a b, scSub_full a b ha hb, (canonical_of _ (scSub_length a b) (hlt a b ha hb)).1⟩,
-    ⟨scSub_length zero a, ?_, (canonical_of _ (scSub_length zero a) (hlt zero a hz ha)).1⟩⟩
-  have h := scSub_full zero a hz ha
-  rw [zero_val] at h
-  simpa using h
+  have hz : zero.length = 32 := List.length_replicate
+  have hn : (leNat (scSub shrI zero a) : Int) = (-(leNat a : Int)) % (ell : Int) := by
+    have h := scSub_full zero a hz ha
+    rw [zero_val, Nat.cast_zero, zero_sub] at h
+    exact h
+  exact ⟨⟨scSub_length a b, scSub_full a b ha hb, (canonical_of _ (scSub_length a b) (scSub_lt a b ha hb)).1⟩,
+    ⟨scSub_length zero a, hn, (canonical_of _ (scSub_length zero a) (scSub_lt zero a hz ha)).1⟩⟩
 
 example : (leNat (neg one) : Int) = (-(leNat one : Int)) % (ell : Int) :=
   (scalar_sub_neg_correct one one (by decide) (by decide)).2.2.1
+
+
+theorem fermat_inv (x n : ℕ) (hn : n + 2 = ell) (hnd : ¬ ell ∣ x) : (x ^ n % ell * x) % ell = 1 := by
+  have := Dos.Compose.fact_ell
+  have hne : ((x : ℕ) : ZMod ell) ≠ 0 := by
+    rw [Ne, ZMod.natCast_eq_zero_iff]; exact hnd
+  have h1 : (((x ^ n % ell * x : ℕ)) : ZMod ell) = ((1 : ℕ) : ZMod ell) := by
+    push_cast
+    rw [ZMod.natCast_mod, Nat.cast_pow, ← pow_succ]
+    have h := ZMod.pow_card_sub_one_eq_one hne
+    have e : ell - 1 = n + 1 := by omega
+    rw [e] at h
+    simpa using h
+  have h2 := (ZMod.natCast_eq_natCast_iff' _ _ _).1 h1
+  rw [h2]
+  exact Nat.mod_eq_of_lt (by omega)
+
+example : ¬ ell ∣ 2 := by decide
+
+theorem pow_of_multiple (c n : ℕ) (hn : n ≠ 0) : (ell * c) ^ n % ell = 0 := by
+  rw [Nat.pow_mod, Nat.mul_mod_right, zero_pow hn, Nat.zero_mod]
+
+example : (ell * 3) ^ 2 % ell = 0 := pow_of_multiple 3 2 (by decide)
 
 /-- **Inv**: a^(ℓ−2) mod ℓ by the loop over the bits of `lMinus2`; the multiplicative inverse whenever ℓ ∤ a -/
 theorem scalar_inv_correct (a : Bytes) (ha : a.length = 32) :
@@ -75,29 +101,15 @@ theorem scalar_inv_correct (a : Bytes) (ha : a.length = 32) :
   have hpos : 0 < ell := by decide
   refine ⟨hl, hv, (canonical_of _ hl (by rw [hv]; exact Nat.mod_lt _ hpos)).1, ?_, ?_⟩
   · intro hnd
-    haveI := Dos.Compose.fact_ell
-    have hne : ((leNat a : ℕ) : ZMod ell) ≠ 0 := by
-      rw [Ne, ZMod.natCast_eq_zero_iff]; exact hnd
-    have h1 : (((leNat (inv a) * leNat a : ℕ)) : ZMod ell) = ((1 : ℕ) : ZMod ell) := by
-      rw [hv]; push_cast
-      rw [ZMod.natCast_mod, Nat.cast_pow, ← pow_succ]
-      have : ell - 2 + 1 = ell - 1 := by decide
-      rw [this]
-      exact ZMod.pow_card_sub_one_eq_one hne
-    have h2 := (ZMod.natCast_eq_natCast_iff' _ _ _).1 h1
-    rw [h2]; decide
+    rw [hv]
+    exact fermat_inv (leNat a) (ell - 2) (by decide) hnd
   · intro hd
     rw [hv]
     obtain ⟨c, hc⟩ := hd
-    rw [hc, mul_pow]
-    have : ell ^ (ell - 2) = ell * ell ^ (ell - 3) := by
-      have : ell - 2 = (ell - 3) + 1 := by decide
-      rw [this, pow_succ]; ring
-    rw [this, mul_assoc]
-    exact Nat.mul_mod_right _ _
+    rw [hc]
+    exact pow_of_multiple c (ell - 2) (by decide)
 
-example : (leNat (inv (natLE 32 2)) * leNat (natLE 32 2)) % ell = 1 :=
-  (scalar_inv_correct _ (natLE_length _ _)).2.2.2.1 (by rw [leNat_natLE_of_lt 32 2 (by decide)]; decide)
+example : (inv one).length = 32 := (scalar_inv_correct one (by decide)).1
 
 /-- **Div**: a·b^(ℓ−2) mod ℓ; multiplied back by b it is a (mod ℓ) whenever ℓ ∤ b -/
 theorem scalar_div_correct (a b : Bytes) (ha : a.length = 32) (hb : b.length = 32) :
@@ -109,7 +121,7 @@ theorem scalar_div_correct (a b : Bytes) (ha : a.length = 32) (hb : b.length = 3
     show leNat (scMul shrI a (inv b)) = _
     rw [scMul_val a (inv b) ha hil, hiv]
   have hpos : 0 < ell := by decide
-  refine ⟨scMul_length _ _, hv, (canonical_of _ (scMul_length _ _) (by rw [hv]; exact Nat.mod_lt _ hpos)).1, ?_⟩
+  refine ⟨scMul_length _ _, hv, (canonical_of _ (scMul_length _ _) (hv ▸ Nat.mod_lt _ hpos)).1, ?_⟩
   intro hnd
   have h1 := hinv hnd
   rw [hiv] at h1
